@@ -784,6 +784,10 @@ pub mod compact {
         pub fn iter(&self) -> Iter<'_, K, V> { Iter { m: self, i: 0 } }
         pub fn keys(&self) -> hash_map::Keys<'_, K, V> { hash_map::Keys { it: self.iter() } }
         pub fn values(&self) -> impl Iterator<Item = &V> { self.iter().map(|(_, v)| v) }
+        pub fn values_mut(&mut self) -> impl Iterator<Item = &mut V> {
+            let len = self.len;
+            self.slots.iter_mut().flat_map(|sl| sl.iter_mut()).take(len).filter_map(|s| match s { Some((_, v)) => Some(v), None => None })
+        }
         pub fn into_keys(self) -> hash_map::IntoKeys<K, V> { hash_map::IntoKeys { it: self.into_iter() } }
     }
     pub struct Iter<'a, K, V> { m: &'a HashMap<K, V>, i: usize }
